@@ -402,6 +402,10 @@ func (m *manager) updateValidationStatus(ctx context.Context, chid datatransfer.
 
 	// dispatch channel events and generate a response message
 	chst, response, err := m.processValidationUpdate(ctx, chid, result)
+	if err != nil && chst == nil {
+		// the channel could not be read or updated: there is no state to act on
+		return err
+	}
 
 	// dispatch transport updates
 	return m.handleTransportUpdate(ctx, chst, response, result, err)
